@@ -44,7 +44,7 @@ FAILS = [
     ("delete_range", ["{u}s = \"ab\""], "{u}e = {u}s.delete(1, 9)"),
     ("remove_range", ["{u}lq: [int...] = [1, 2]"], "{u}e = {u}lq.remove(5)"),
     ("pow_negative_exponent", ["{u}m = 2", "{u}o = -1"], "{u}e = {u}m.pow({u}o)"),
-    ("pow_overflow", ["{u}m = 2", "{u}o = 31"], "{u}e = {u}m.pow({u}o)"),
+    ("pow_overflow", ["{u}m = B2", "{u}o = 200"], "{u}e = {u}m.pow({u}o)"),
     ("radix_invalid", ["{u}s = \"10\""], "{u}e = {u}s.parse_int_radix(99)"),
     ("map_empty_list", ["{u}lq: [int...] = [1]", "{u}d = {u}lq.remove(0)", "{u}cb = fn(q: int) -> int {{ return q }}"],
      "{u}e = {u}lq.map({u}cb)"),
